@@ -45,6 +45,17 @@ type C17Plan struct {
 	Pick   int        `json:"pick"`   // which key with that prefix
 	Corr   Corruption `json:"corr"`
 	Stream C18Plan    `json:"stream"` // decoder kind: a valid stream to mutate
+	Forged *Forged    `json:"forged,omitempty"` // forged kind: a packfile of well-formed objects that contradict each other
+}
+
+// Forged describes a hand-built packfile: one block, the table listing it, the commit of that table.
+// Every object is well-formed and stored under its true hash; the contradiction is structural.
+type Forged struct {
+	Cols     int   `json:"cols"`      // columns the table declares
+	PK       []int `json:"pk"`        // primary key indices the table declares
+	Widths   []int `json:"widths"`    // cells in each row of the block
+	RowsDecl int   `json:"rows_decl"` // row count the table declares
+	GoodIdx  bool  `json:"good_idx"`  // the table lists the block index a keyless indexer would compute for these rows
 }
 
 func init() {
@@ -64,6 +75,32 @@ func init() {
 			if seed%64 == 0 {
 				// trigger plan of known finding C17-s2-block-length
 				p.Kind, p.Target, p.Corr = "disk", "blk/", Corruption{Kind: "inflate32", Off: 0}
+			}
+			if seed%64 != 0 && r.Chance(0.1) {
+				p.Kind = "forged"
+				f := &Forged{Cols: r.Range(1, 4), RowsDecl: -1, GoodIdx: r.Chance(0.6)}
+				nrows := r.Range(1, 5)
+				for i := 0; i < nrows; i++ {
+					wd := f.Cols
+					if r.Chance(0.4) {
+						wd = Pick(r, []int{0, 1, f.Cols - 1, f.Cols + 1, 2})
+						if wd < 0 {
+							wd = 0
+						}
+					}
+					f.Widths = append(f.Widths, wd)
+				}
+				if r.Chance(0.7) {
+					f.Widths[0] = f.Cols // the first row often looks right
+				}
+				for k := r.Range(0, 2); k > 0; k-- {
+					f.PK = append(f.PK, r.Intn(f.Cols+1)) // may point one past the columns
+				}
+				if r.Chance(0.3) {
+					f.RowsDecl = Pick(r, []int{0, 1, nrows + 1, 255, 256})
+				}
+				p.Forged = f
+				return p
 			}
 			if p.Kind == "decoder" {
 				p.Stream = C18Plan{Kind: Pick(r, c18Kinds), DataSeed: r.Uint64()}
@@ -204,6 +241,9 @@ func execC17(t *testing.T, raw json.RawMessage, res *Result) {
 		return
 	}
 	switch p.Kind {
+	case "forged":
+		execC17Forged(&p, res)
+		return
 	case "disk", "packfile":
 		if err := p.Repo.Validate(); err != nil || p.Repo.Graph.N() == 0 || p.Repo.Graph.N() > 30 {
 			res.Invalid("plan: %v", err)
@@ -457,4 +497,100 @@ func handProfile(nf, idx int) []byte {
 	b.Write(u16(0))
 	b.WriteString("\n")
 	return b.Bytes()
+}
+
+// execC17Forged feeds the receiver a packfile whose objects are each well-formed and
+// correctly hashed but contradict each other (rows of other widths than the table's
+// columns, key indices past a row, a wrong declared row count).
+func execC17Forged(p *C17Plan, res *Result) {
+	f := p.Forged
+	if f == nil || f.Cols < 0 || f.Cols > 16 || len(f.Widths) == 0 || len(f.Widths) > 255 || len(f.PK) > 8 {
+		res.Invalid("forged plan")
+		return
+	}
+	res.Nontrivial = true
+	s2Claim = 0
+	res.fault("forged_contradicting_objects", 1)
+	cols := make([]string, f.Cols)
+	for i := range cols {
+		cols[i] = fmt.Sprintf("c%d", i)
+	}
+	var rows [][]string
+	for i, wd := range f.Widths {
+		if wd < 0 || wd > 32 {
+			res.Invalid("width")
+			return
+		}
+		row := make([]string, wd)
+		for j := range row {
+			row[j] = fmt.Sprintf("%03d-%d", i, j)
+		}
+		rows = append(rows, row)
+	}
+	enc := objects.NewStrListEncoder(true)
+	var bb bytes.Buffer
+	if _, err := objects.WriteBlockTo(enc, &bb, rows); err != nil {
+		res.Invalid("block: %v", err)
+		return
+	}
+	blkSum := meowSum(bb.Bytes())
+	tbl := &objects.Table{Columns: cols, RowsCount: uint32(len(rows)), Blocks: [][]byte{blkSum}}
+	if f.RowsDecl >= 0 {
+		tbl.RowsCount = uint32(f.RowsDecl)
+	}
+	for _, k := range f.PK {
+		if k < 0 {
+			res.Invalid("pk")
+			return
+		}
+		tbl.PK = append(tbl.PK, uint32(k))
+	}
+	idxSum := meowSum([]byte("no such index"))
+	if f.GoodIdx {
+		if idx, err := objects.IndexBlock(enc, newMeow(), rows, nil); err == nil {
+			var ib bytes.Buffer
+			idx.WriteTo(&ib)
+			idxSum = meowSum(ib.Bytes())
+		}
+	}
+	tbl.BlockIndices = [][]byte{idxSum}
+	var tb bytes.Buffer
+	tbl.WriteTo(&tb)
+	tblSum := meowSum(tb.Bytes())
+	com := &objects.Commit{Table: tblSum, AuthorName: "a", AuthorEmail: "e", Message: "m", Time: bubbleEpoch}
+	var cb bytes.Buffer
+	com.WriteTo(&cb)
+	comSum := meowSum(cb.Bytes())
+	var pf bytes.Buffer
+	pw, err := packfile.NewPackfileWriter(&pf)
+	if err != nil {
+		res.Invalid("%v", err)
+		return
+	}
+	pw.WriteObject(packfile.ObjectBlock, s2.Encode(nil, bb.Bytes()))
+	pw.WriteObject(packfile.ObjectTable, tb.Bytes())
+	pw.WriteObject(packfile.ObjectCommit, cb.Bytes())
+	dst := NewStore("dst", &World{})
+	var rerr error
+	if !guarded(res, fmt.Sprintf("ObjectReceiver.Receive of a forged packfile (table of %d columns, key %v, block rows of widths %v, declared rows %d)", f.Cols, f.PK, f.Widths, f.RowsDecl), pf.Len(), func() error {
+		pr, err := packfile.NewPackfileReader(io.NopCloser(bytes.NewReader(pf.Bytes())))
+		if err != nil {
+			rerr = err
+			return err
+		}
+		recv := apiutils.NewObjectReceiver(dst, [][]byte{comSum}, logr.Discard())
+		_, rerr = recv.Receive(pr, nil)
+		return rerr
+	}) {
+		return
+	}
+	if c, d := CheckRepoInvariants(dst.Snapshot(), map[string][]byte{}); c != "" {
+		res.Violate("rejected-object-left:"+c, "after Receive of the forged packfile returned %v: %s", rerr, d)
+		return
+	}
+	if rerr != nil {
+		res.probe("forged_packfile_rejected", 1)
+	} else {
+		res.probe("forged_packfile_accepted", 1)
+	}
 }
